@@ -275,7 +275,12 @@ theorem fix_pure (v : Variant) (kw : Kw) (t t' : Tree) (h : fix v kw t = .ok t')
   have hall : t'.all freshNode = true :=
     fixLoop_inv (fun _ w => w.all freshNode = true)
       (fun p ps w g m r w1 hI hm hty hf hr =>
-        all_replaceAt freshNode_name hI ((fixer_spec hf hty).2.2.2.2 (all_subAt hI hm)) hr)
+        all_replaceAt freshNode_name hI (by
+          have hr0 := (fixer_spec hf hty).2.2.2.2 (all_subAt hI hm)
+          unfold installed
+          split
+          · rw [tree_all_setMode freshNode (fun _ _ => rfl)]; exact hr0
+          · exact hr0) hr)
       (fun p ps w m hI _ _ => hI) _ _ _ _ h0 h
   intro o ho
   simp only [Tree.oids, List.mem_flatMap] at ho
